@@ -73,6 +73,9 @@ type runner struct {
 	preNodeHandlerManager   *preNodeHandlerManager
 	preBranchHandlerManager *preBranchHandlerManager
 
+	// nodes (END included) whose pre-node handlers end with the field-mapping converter
+	fieldMappedNodes map[string]bool
+
 	checkPointer         *checkPointer
 	interruptBeforeNodes []string
 	interruptAfterNodes  []string
@@ -803,12 +806,25 @@ func (r *runner) initChannelManager(isStream bool) *channelManager {
 		builder = pregelChannelBuilder
 	}
 
-	chs := make(map[string]channel)
-	for ch := range r.chanSubscribeTo {
-		chs[ch] = builder(r.controlPredecessors[ch], r.dataPredecessors[ch], r.chanSubscribeTo[ch].action.inputZeroValue, r.chanSubscribeTo[ch].action.inputEmptyStream)
+	// what a channel hands out when it is ready without any value (every data predecessor was
+	// skipped) is what the node's input pipeline starts with: for a node with field mappings
+	// that is the map of mapped fields – an empty one, "nothing was mapped" – not the node's own
+	// input type, which the field-mapping converter would refuse.
+	zeroOf := func(key string, zeroValue func() any, emptyStream func() streamReader) (func() any, func() streamReader) {
+		if r.fieldMappedNodes[key] {
+			return zeroValueFromGeneric[map[string]any], emptyStreamFromGeneric[map[string]any]
+		}
+		return zeroValue, emptyStream
 	}
 
-	chs[END] = builder(r.controlPredecessors[END], r.dataPredecessors[END], r.outputZeroValue, r.outputEmptyStream)
+	chs := make(map[string]channel)
+	for ch := range r.chanSubscribeTo {
+		zeroValue, emptyStream := zeroOf(ch, r.chanSubscribeTo[ch].action.inputZeroValue, r.chanSubscribeTo[ch].action.inputEmptyStream)
+		chs[ch] = builder(r.controlPredecessors[ch], r.dataPredecessors[ch], zeroValue, emptyStream)
+	}
+
+	zeroValue, emptyStream := zeroOf(END, r.outputZeroValue, r.outputEmptyStream)
+	chs[END] = builder(r.controlPredecessors[END], r.dataPredecessors[END], zeroValue, emptyStream)
 
 	dataPredecessors := make(map[string]map[string]struct{})
 	for k, vs := range r.dataPredecessors {
